@@ -183,6 +183,89 @@ Section ROut.
       as (w' & k' & r' & out & hot' & Hrun & _ & T).
     exists r0, k0, w', k', r', out. split; [exact Hcons|]. split; [exact Hrun|]. now apply TInv_tree_eq.
   Qed.
+
+  (* ---------------------------------------------------------------- directory move-outs back to back *)
+  Definition step_ok12 (w : world) (hot : option bytes) (o : op) : Prop :=
+    match hot with
+    | None => c01_x w o
+    | Some h => c01_x w o /\ watched_parent C w o /\ (forall d, In d (notified o) -> blw h d = false)
+    end.
+
+  Lemma c01_x_covered w o : c01_x w o -> covered_x C w o.
+  Proof. intros [o' Ho|p q ep Np Nq Hrec El De Sp Hpr Sq Elq]; [apply cx_op; now apply c01_op_covered | eapply cx_out; eassumption]. Qed.
+
+  Lemma step_ok12_ok w hot o : step_ok12 w hot o -> step_ok2 C w hot o.
+  Proof.
+    destruct hot as [h|]; cbn [step_ok12 step_ok2].
+    - intros (Ho & H2 & H3). split; [now apply c01_x_covered | auto].
+    - apply c01_x_covered.
+  Qed.
+
+  Fixpoint ops_x12 (w : world) (hot : option bytes) (ops : list op) : Prop :=
+    match ops with
+    | [] => True
+    | o :: ops' =>
+      match apply_op w o with
+      | None => ops_x12 w hot ops'
+      | Some w' => step_ok12 w hot o /\ ops_x12 w' (is_dir_out C w o) ops'
+      end
+    end.
+
+  Theorem gs2_replay_step w k r hot o w' t : GS2 C w k r hot -> step_ok12 w hot o -> apply_op w o = Some w' ->
+    TInv rec root t w ->
+    let k1 := kernel_op k (w_fs w) o in
+    exists r' k' raws, read_batch C (w_fs w') (r, drainq k1, []) (k_queue k1) = Done (r', k', raws) /\
+      GS2 C w' k' r' (is_dir_out C w o) /\ Forall (rsafe C) raws /\
+      TInv rec root (replay rec root t (delivered C full w' raws)) w'.
+  Proof.
+    intros G Hs Ea T k1.
+    destruct (gs2_step C Hfaults Hmo w k r hot o w' Hm G (step_ok12_ok _ _ _ Hs) Ea) as (r' & k' & raws & Hrd & G' & Hsafe).
+    exists r', k', raws. split; [exact Hrd|]. split; [exact G'|]. split; [exact Hsafe|]. unfold k1 in Hrd. clear k1.
+    assert (M : mask_ok C) by (unfold mask_ok; rewrite Hm; repeat split; vm_compute; discriminate).
+    destruct hot as [h|]; cbn [GS2 step_ok12] in *.
+    - destruct G as (c & p & PJ0). destruct Hs as (Hx & Hwp & Hnh).
+      assert (PO := pj_out _ _ _ _ _ _ _ PJ0). assert (Pclean := po_clean _ _ _ _ _ _ _ PO).
+      assert (Qne := record_produced C w k r o Hm (rs_wf _ _ _ _ Pclean) (po_cover _ _ _ _ _ _ _ PO) (po_mask _ _ _ _ _ _ _ PO) Hwp).
+      destruct Hx as [o' Ho|p2 q2 ep Np Nq Hrec El De Sp Hpr Sq Elq].
+      + destruct (replay_step C full w _ _ o' w' t Hfaults Hm Pclean Ho Ea T) as (r4 & k4 & raws4 & Hrd4 & S4 & _ & T4).
+        destruct (pj_transfer C Hmo w k r h c p o' (w_fs w') r4 k4 raws4 PJ0 Hnh Qne Hrd4 (rs_queue _ _ _ _ S4)) as (kb & Hreal & _).
+        rewrite Hrd in Hreal. injection Hreal as _ _ <-. exact T4.
+      + destruct M as (M1 & M2 & M3).
+        destruct (out_pout C Hmo w _ _ p2 q2 w' ep Pclean Np Nq Hrec M2 M3 Ea El De Sp Hpr Sq) as (r4 & k4 & raws4 & Hrd4 & PO4 & _).
+        assert (T4 := replay_step_out w _ _ p2 q2 w' ep t Pclean Np Nq Hrec Ea El De Sp Hpr Sq Elq T r4 k4 raws4 Hrd4).
+        destruct (pj_transfer C Hmo w k r h c p (Rename p2 q2) (w_fs w') r4 k4 raws4 PJ0 Hnh Qne Hrd4 (po_queue _ _ _ _ _ _ _ PO4)) as (kb & Hreal & _).
+        rewrite Hrd in Hreal. injection Hreal as _ _ <-. exact T4.
+    - rewrite (junk_read_eq w k r o (w_fs w') G) in Hrd.
+      destruct Hs as [o' Ho|p q ep Np Nq Hrec El De Sp Hpr Sq Elq].
+      + destruct (replay_step C full w (kset_queue k []) r o' w' t Hfaults Hm (js_sync _ _ _ _ G) Ho Ea T) as (r4 & k4 & raws4 & Hrd4 & _ & _ & T4).
+        rewrite Hrd in Hrd4. injection Hrd4 as <- <- <-. exact T4.
+      + exact (replay_step_out w (kset_queue k []) r p q w' ep t (js_sync _ _ _ _ G) Np Nq Hrec Ea El De Sp Hpr Sq Elq T r' k' raws Hrd).
+  Qed.
+
+  Theorem replay_sequential_x2 : forall ops w k r hot t0 out, GS2 C w k r hot ->
+    TInv rec root (replay rec root t0 out) w -> ops_x12 w hot ops ->
+    exists w' k' r' out' hot', drun C full w k r ops out = Some (w', k', r', out') /\ GS2 C w' k' r' hot' /\
+      TInv rec root (replay rec root t0 out') w'.
+  Proof.
+    induction ops as [|o ops IH]; intros w k r hot t0 out G T Hc; cbn [drun ops_x12] in *.
+    - exists w, k, r, out, hot. split; [reflexivity|]. split; assumption.
+    - destruct (apply_op w o) as [w'|] eqn:Ea; [|now apply (IH w k r hot)].
+      destruct Hc as [Hs Hc].
+      destruct (gs2_replay_step w k r hot o w' _ G Hs Ea T) as (r' & k' & raws & -> & G' & _ & T').
+      apply (IH w' k' r' _ t0 _ G'); [|exact Hc]. unfold replay in *. now rewrite fold_left_app.
+  Qed.
+
+  Theorem replay_from_start_x2 ops w : wf_fs w -> fisdir root (w_fs w) = true -> ops_x12 w None ops ->
+    exists r0 k0 w' k' r' out, construct C kinit (w_fs w) = Some (r0, k0) /\
+      drun C full w k0 r0 ops [] = Some (w', k', r', out) /\
+      forall x, alookup beqb x (replay rec root (tree_of rec root w) out) = alookup beqb x (tree_of rec root w').
+  Proof.
+    intros W Hroot Hc. destruct (construct_cover C Hfaults w W Hroot) as (r0 & k0 & Hcons & I & Cv & Hq & _ & Hp0).
+    assert (S : RSync C w k0 r0) by (constructor; try assumption; now apply fisdir_in).
+    destruct (replay_sequential_x2 ops w k0 r0 None (tree_of rec root w) [] (RSync_JSync C _ _ _ S) (TInv_init _ _ w W) Hc)
+      as (w' & k' & r' & out & hot' & Hrun & _ & T).
+    exists r0, k0, w', k', r', out. split; [exact Hcons|]. split; [exact Hrun|]. now apply TInv_tree_eq.
+  Qed.
 End ROut.
 
 Lemma ops_x1_cons C w hot o ops w' : apply_op w o = Some w' -> step_ok1 C w hot o -> ops_x1 C w' (hot_next C w hot o) ops ->
